@@ -59,6 +59,10 @@ def sym_inputs(vc, cfg, nf, ns, m):
     elif bk == "scalar":
         b = vc.real("baseline")
         d["baseline_arg"], d["baseline"] = b, np.array([b], dtype=object if vc.symbolic else float)
+    elif bk == "array1":
+        # a scalar baseline the way ReceptorEstimator stores it: np.atleast_1d(value), shape (1,)
+        b = vc.array("baseline", (1,))
+        d["baseline_arg"], d["baseline"] = b, b
     else:
         b = vc.array("baseline", (nf,))
         d["baseline_arg"], d["baseline"] = b, b
